@@ -118,6 +118,12 @@ func (m *Migrator) Migrate(
 		if err != nil {
 			return nil, fmt.Errorf("computing oldest block kept: %w", err)
 		}
+		if floor == 0 {
+			// Everything from genesis up is retained (retainedBlocks == pivot, or every block is
+			// younger than minAge): nothing to prune, and no block below the cutoff whose
+			// hash→number mapping setupBeforeRestorer could seed.
+			return nil, nil
+		}
 		m.oldestBlockKept = floor
 		m.floorPinned = true
 	}
